@@ -334,6 +334,30 @@ def r05_4(cx):
         got[nm] = sorted(vals, key=str)
     ok = got == {'Standard': [None], 'LeftmostFirst': ['LeftmostFirst'], 'LeftmostLongest': ['LeftmostLongest']}
     cx.report('R05.4', ap, 'as_packed', ok, 'as_packed: Standard -> None, LeftmostFirst/Longest -> the same packed kind' if ok else 'MatchKind::as_packed table deviates: %s' % got)
+    # the packed searcher is configured with the automaton's own match kind (it reports matches directly)
+    bn = cx.body('util::prefilter::Builder::new')
+    KIND = cstr(param_at(bn, 1))
+    nrows = [r for r in summarize(cx.facts, bn) if r.end == 'return']
+    whyk = None if nrows else 'Builder::new never returns'
+    seen_some = False
+    for r in nrows:
+        ap = r.cond(lambda c: c[0] == 'discr' and is_call(canon(c[1]), r'MatchKind::as_packed$') and cstr(canon(c[1])[2][0]) == KIND)
+        rt = canon(r.ret) if r.ret is not None else None
+        pk = rt[3].get('packed') if rt is not None and rt[0] == 'agg' and isinstance(rt[3], dict) else None
+        if ap is None or pk is None:
+            whyk = 'the packed builder does not depend on kind.as_packed()'
+            continue
+        if ap == 1:
+            seen_some = True
+            payload = '(util::search::MatchKind::as_packed(%s) as Some).0' % KIND
+            mk = [s for s in subterms(pk) if is_call(s, r'packed::api::Config::match_kind$')]
+            if not (is_agg(pk, r'Option$', 'Some') and len(mk) == 1 and cstr(mk[0][2][1]) == payload):
+                whyk = 'the packed builder is not configured with match_kind(kind.as_packed()): %s' % tstr(pk, 200)
+        elif not is_agg(pk, r'Option$', 'None'):
+            whyk = 'a packed builder exists although the match kind has no packed equivalent'
+    if not seen_some:
+        whyk = whyk or 'no path builds a packed builder'
+    cx.report('R05.4', bn, 'packed-kind', whyk is None, 'the packed builder gets the automaton\'s match kind (as_packed), or does not exist' if whyk is None else whyk)
     # memmem: exactly one pattern
     ma = cx.body('util::prefilter::MemmemBuilder::add')
     rows = [r for r in summarize(cx.facts, ma) if r.end == 'return']
